@@ -21,6 +21,7 @@ ASSUMPTIONS = ["tolerance 1e-8 * sqrt(|V_aa V_bb|) per charge, V_aa from the ref
 TOL = 1e-8
 CHUNK = 2
 CLASSES = ["onA", "onB", "mid", "axisA", "near", "far", "offA"]
+TLADDER = [12.0, 22.0, 27.0, 31.0, 45.0]  # Boys arguments for the first primitive pair (where algorithms switch)
 QS = {"onA": 1.0, "onB": -2.0, "mid": 0.1, "axisA": 6.0, "near": -0.7, "far": 100.0, "offA": 17.0}
 
 
@@ -47,19 +48,19 @@ def position(cls, A, B):
 
 def shapes(tier):
     if tier == "quick":
-        return [(1, 1, 2, 2, 2, 0), (2, 1, 0, 1, 2, 1)]
+        return [(1, 1, 2, 2, 2, 0), (2, 1, 0, 1, 2, 1), (1, 1, 1, 1, 2, 1)]
     return [(1, 1, 0, 1, 1, 2), (1, 1, 2, 1, 1, 0), (2, 2, 0, 1, 1, 1), (1, 3, 1, 2, 1, 2), (2, 1, 2, 2, 2, 0),
             (3, 1, 1, 1, 2, 1), (4, 2, 0, 2, 3, 1), (3, 3, 1, 4, 1, 0)]
 
 
 def bounds(tier):
-    return {"l_pairs": 36, "type_pairs": 4, "geometries": 2 if tier == "quick" else 6,
+    return {"l_pairs": 36, "type_pairs": 4, "geometries": 3 if tier == "quick" else len(al.GEOMS), "boys_ladder_T": TLADDER,
             "shape_patterns": len(shapes(tier)), "charge_position_classes": 7,
             "charge_subsets_family": "all 119 subsets of size 1..5 for %s l-pairs" % ("2" if tier == "quick" else "36")}
 
 
 def configs(tier, seed):
-    geoms = ["generic", "coincident"] if tier == "quick" else al.GEOMS
+    geoms = ["generic", "coincident", "tail28"] if tier == "quick" else al.GEOMS
     out = []
     for c in ps.configs(tier, 5, singles=False, bases=False, shapes=shapes(tier), geoms=geoms):
         out.append(dict(c, test="cover"))
@@ -102,8 +103,19 @@ def evaluate(cfg):
     g = [gshell(s) for s in shells]
     A, B = shells[0].center, shells[-1].center
     pos = {c: position(c, A, B) for c in CLASSES}
-    cls_index = {c: i for i, c in enumerate(CLASSES)}
-    allpts = np.array([pos[c] for c in CLASSES])
+    # Boys-argument ladder: charges at P + u sqrt(T/p) for the first primitive pair of (first shell, last shell)
+    ea, eb = shells[0].exps[0], shells[-1].exps[0]
+    pp = ea + eb
+    P = (ea * np.array(A) + eb * np.array(B)) / pp
+    u = np.array(hvec("boys-u", 3, 0.3, 1.0)) * np.array([1, 1, -1])
+    u /= np.linalg.norm(u)
+    names = list(CLASSES)
+    for T in TLADDER:
+        pos["T%g" % T] = P + u * np.sqrt(T / pp)
+        QS["T%g" % T] = 1.0 + T / 50.0
+        names.append("T%g" % T)
+    cls_index = {c: i for i, c in enumerate(names)}
+    allpts = np.array([pos[c] for c in names])
     ref_all = coulomb.coulomb_matrix(shells, shells, allpts)
     diag_all = np.abs(coulomb.coulomb_diag(shells, allpts))
     # Boys-argument range actually exercised
@@ -123,13 +135,14 @@ def evaluate(cfg):
         charge_call(o, g, shells, ["onA", "mid", "near", "far", "offA"], "5 charges", ref_all, diag_all, cls_index, pos)
         charge_call(o, g, shells, ["axisA", "onB"], "2 charges", ref_all, diag_all, cls_index, pos)
         charge_call(o, g, shells, ["far"], "1 charge", ref_all, diag_all, cls_index, pos)
+        charge_call(o, g, shells, ["T%g" % T for T in TLADDER], "Boys ladder", ref_all, diag_all, cls_index, pos)
     if cfg["test"] == "cover":
         rev = [shells[1], shells[0]]
         na = shells[0].nfunc
         perm = list(range(na, len(ref_all))) + list(range(na))
         charge_call(o, [g[1], g[0]], rev, ["onB", "near", "axisA"], "reversed shells",
                     ref_all[np.ix_(perm, perm)], diag_all[perm], cls_index, pos)
-        q = np.array([QS[c] for c in CLASSES])
+        q = np.array([QS[c] for c in names])
         for x, y, nm in ((0, 1, "(a,b)"), (1, 0, "(b,a)")):
             blk = PointChargeIntegral.construct_array_contraction(g[x], g[y], allpts, q)
             o.call()
